@@ -463,7 +463,7 @@ static void c07_check_saved(const canon::Saved& sv, bool has_unknown, const std:
 }
 
 // every edit of the menu, applied to a fresh load of F, then saved raw and default
-static const char* C07_EDITS[] = {"none", "delete-block", "add-node", "add-shape", "delete-vertex", "rename", "add-extra-data", "set-texture", "convert", "clone-shape", "key-interpolation", "replace-block-same-type"};
+static const char* C07_EDITS[] = {"none", "delete-block", "add-node", "add-shape", "delete-vertex", "rename", "add-extra-data", "set-texture", "convert", "clone-shape", "key-interpolation", "replace-block-same-type", "header-info"};
 
 // every animation key group of a block: switch the interpolation type and add a key through the API
 template<class G>
@@ -564,6 +564,16 @@ static void c07_file_checks(const std::string& F, const std::string& keybase, co
 					auto o = hdr.GetBlock<NiObject>(id);
 					if (!o || dynamic_cast<NiGeometryData*>(o) || dynamic_cast<NiShape*>(o)) applied = false; // shapes / geometry data are linked through cached pointers
 					else hdr.ReplaceBlock(id, o->Clone());
+				}
+				else if (e == "header-info") {
+					// the header's free-text fields through their setters: export info of every length around the points where
+					// the setter splits it into its three length-prefixed strings (1-byte lengths), and a creator string
+					static const size_t LENS[] = {0, 1, 253, 254, 255, 256, 507, 508, 509, 510, 761, 762, 763, 764, 1000};
+					variants = sizeof LENS / sizeof LENS[0];
+					std::string info;
+					for (size_t i = 0; i < LENS[var]; i++) info += (char) ('a' + i % 26);
+					hdr.SetExportInfo(info);
+					hdr.SetCreatorInfo(var % 2 ? "verif" : "");
 				}
 				if (!applied) break;
 				vf::set_inflight(J(cj).set("edit", e).set("variant", (long long) var).set("raw", raw == 1).dump());
